@@ -3,6 +3,7 @@ CONSTANTS
   Modes = {"fallback", "race"}
   GivenChoices = {TRUE, FALSE}
   SendFailChoices = {TRUE, FALSE}
+  BadPortChoices = {FALSE}
   WithRequest = TRUE
   WithConnectBack = FALSE
   Cancellable = TRUE
